@@ -59,6 +59,10 @@ Lemma src_lost_forgotten : forall h h' q, made (conns (run_src h) q) = true -> l
   copen (conns s q) = false /\ active (conns s q) = nil /\ (forall c, ~ In q (subs s c)).
 Proof. intros h h' q. rewrite !run_src_eq. apply lost_forgotten. Qed.
 
+Lemma src_info_first : forall h q, made (conns (run_src h) q) = true ->
+  exists l, out (conns (run_src h) q) = l ++ [FInfo bname (nonce (conns (run_src h) q))].
+Proof. intros h q. rewrite run_src_eq. apply info_first. Qed.
+
 Lemma src_good : forall h, Good (srow store) async_store (run_src h).
 Proof. intro h. rewrite run_src_eq. apply run_good. Qed.
 
@@ -74,10 +78,10 @@ Proof. intro h. rewrite run_src_eq. apply run_IdsOK. Qed.
 End Src.
 
 (* ---- one-step statements about the translated methods themselves ------------------------------------------ *)
-Lemma src_preauth_reject : forall sup q op body s, ak (conns s q) = None -> op <> 2 ->
-  Connection_message_received sup q op body s = BOk false (bad q s).
+Lemma src_preauth_reject : forall store async_store pp q op body s, ak (conns s q) = None -> op <> 2 ->
+  Connection_message_received store async_store pp q op body s = BOk false (bad q s).
 Proof.
-  intros sup q op body s H Hop. rewrite Connection_message_received_eq, H. cbn [opt_none andb].
+  intros store async_store pp q op body s H Hop. rewrite Connection_message_received_eq, H. cbn [opt_none andb].
   change op_auth with 2. destruct (Z.eqb_spec op 2); [contradiction|reflexivity].
 Qed.
 Lemma src_unknown_ident_reject : forall pp q i dg s, Connection_authenticate pp q i dg LNone s = BOk false (bad q s).
